@@ -1,6 +1,7 @@
 """Class that represents a numerical expression that can be evaluated."""
 import math
 import os
+from collections import Counter
 from typing import List, Union, Dict, Optional, Iterator, Tuple
 
 from anytree import AnyNode, RenderTree
@@ -81,6 +82,16 @@ def construct_expression_tree(
         if len(expression_ast) == 1:
             return AnyNode(id=str(extracted_function), value=extracted_function)
 
+        repeating_arguments = {
+            argument: count
+            for argument, count in Counter(expression_ast[1:]).items()
+            if count > 1
+        }
+        if any(argument.startswith("?") for argument in repeating_arguments):
+            raise SyntaxError(
+                f"Lifted function terms with a repeated parameter are not supported - {expression_ast}"
+            )
+
         new_function = PDDLFunction(
             name=function_name,
             signature={
@@ -89,6 +100,7 @@ def construct_expression_tree(
                     expression_ast[1:], extracted_function.signature.values()
                 )
             },
+            repeating_variables=repeating_arguments,
         )
         return AnyNode(id=str(new_function), value=new_function)
 
